@@ -522,10 +522,9 @@ func (l *Line) appendIP6(ip net.IP) {
 		} else {
 			l.writeHexNoleadingZeros(ip[(i*2)+1])
 		}
-		l.appendByte(':')
-	}
-	if endZ < 7 {
-		l.index--
+		if i < 7 { // no separator after the last group
+			l.appendByte(':')
+		}
 	}
 }
 
